@@ -2,7 +2,7 @@
    operations, an operation history, and the rendering of observations in the
    harness' text format.  Definitions only. *)
 From GoFlags Require Import Base.Str Base.Utf8 Golib.Strings Golib.Strconv
-     Model.Types Model.Tag Model.Scan Model.Lookup Model.Convert Model.State Model.Closest Model.Help Model.Parse Model.Ini.
+     Model.Types Model.Tag Model.Scan Model.Lookup Model.Convert Model.State Model.Closest Model.Help Model.Parse Model.Ini Model.Complete.
 Open Scope N_scope.
 
 Inductive attach_op :=
@@ -15,7 +15,9 @@ Inductive op :=
 | OpIni (text : str) (as_defaults : bool)
 | OpWriteIni (opts : N)       (* IniOptions bit mask: 2 include defaults, 4 comment defaults, 8 include comments *)
 | OpHelp                      (* Parser.WriteHelp *)
-| OpMan.                      (* Parser.WriteManPage, date pinned by SOURCE_DATE_EPOCH=86400 *)
+| OpMan                       (* Parser.WriteManPage, date pinned by SOURCE_DATE_EPOCH=86400 *)
+| OpComplete (args : list str)    (* ParseArgs with GO_FLAGS_COMPLETION set and a CompletionHandler *)
+| OpInspect.                      (* dump of the public model *)
 
 Record scenario := {
   sc_cfg : pconfig;
@@ -111,6 +113,16 @@ Section Run.
       let r := set_fl r fid (fl_with fl (f_isset fl) (f_isdefault fl) (f_prevent fl) true) in
       r' <- opt_update_default_literal orc oc r ;;
       prologue_opts ocs' r'
+    end.
+
+  (* ParseArgs in completion mode: same prologue, then completion.complete; nothing is parsed or executed *)
+  Definition complete_args (w : world) (args : list str) : res (world * option (list (str * str))) :=
+    match w_internal w with
+    | Some e => Ok (w, None)
+    | None =>
+      r <- prologue_opts (tree_octxs (w_tree w)) (w_rt w) ;;
+      let tree := if po_help (pc_opts cfg) then add_help_groups (cmd_depth (w_tree w)) (w_tree w) else w_tree w in
+      Ok ({| w_tree := tree; w_rt := r; w_internal := None; w_attached := w_attached w |}, Some (complete cfg tree args))
     end.
 
   Definition parse_args (w : world) (args : list str) : res (world * presult) :=
@@ -209,6 +221,43 @@ Definition render_op (sc : scenario) (w : world) (opname : string) (panic : opti
   line "attached" (join (sort_strs (map (fun s => dec_of_N (N.of_nat s)) (w_attached w))) [44]) ++
   extra.
 
+(* ---- the public model (exported fields of Option / Group / Command / Arg), for C19 *)
+Definition hl (l : list str) : str := join (map hex_of_str l) [44].
+Definition bb (b : bool) : str := if b then [49] else [48].
+
+Definition render_opt (delim edelim : str) (o : opt) (ns envns : list str) (g : group) : str :=
+  let oc := {| oc_opt := o; oc_ns := ns; oc_envns := envns; oc_ghidden := false; oc_gshort := []; oc_builtin := false |} in
+  s2l "O(" ++ join [hex_of_str (o_field o); hex_of_str (o_desc o); dec_of_N (o_short o); hex_of_str (o_long o);
+                    hl (o_default o); hex_of_str (o_envkey o); hex_of_str (o_envdelim o); bb (o_optional o);
+                    hl (o_optval o); bb (o_required o); hex_of_str (o_valname o); hex_of_str (o_mask o);
+                    hl (o_choices o); bb (o_hidden o);
+                    hex_of_str (long_name delim oc); hex_of_str (env_key edelim oc); hex_of_str (octx_string delim oc)] [59]
+      ++ s2l ")".
+
+Fixpoint render_group (fuel : nat) (delim edelim : str) (ns envns : list str) (g : group) : str :=
+  match fuel with
+  | O => []
+  | S f =>
+    let gi := grp_info g in
+    let ns' := ns ++ [g_ns gi] in
+    let envns' := envns ++ [g_envns gi] in
+    s2l "G(" ++ join [hex_of_str (g_short gi); hex_of_str (g_long gi); hex_of_str (g_ns gi); hex_of_str (g_envns gi); bb (g_hidden gi)] [59]
+        ++ s2l "){" ++ concat (map (fun o => render_opt delim edelim o ns' envns' g) (grp_opts g))
+        ++ concat (map (render_group f delim edelim ns' envns') (grp_subs g)) ++ s2l "}"
+  end.
+
+Fixpoint render_cmd (fuel : nat) (delim edelim : str) (c : command) : str :=
+  match fuel with
+  | O => []
+  | S f =>
+    let ci := cmd_info c in
+    s2l "C(" ++ join [hex_of_str (c_name ci); hl (c_aliases ci); bb (c_sub_optional ci); bb (c_args_required ci)] [59] ++ s2l ")[" ++
+    concat (map (fun a : arg => s2l "A(" ++ join [hex_of_str (a_name a); hex_of_str (a_desc a); dec_of_Z (a_req a); dec_of_Z (a_max a)] [59] ++ s2l ")")
+                (cmd_args c)) ++ s2l "]" ++
+    render_group (group_depth (cmd_group c)) delim edelim [] [] (cmd_group c) ++
+    s2l "<" ++ concat (map (render_cmd f delim edelim) (cmd_subs c)) ++ s2l ">"
+  end.
+
 Definition clear_logs (w : world) : world :=
   {| w_tree := w_tree w; w_rt := set_logs (w_rt w) logs0; w_internal := w_internal w; w_attached := w_attached w |}.
 
@@ -254,6 +303,18 @@ Definition run_op (sc : scenario) (w : world) (o : op) : world * str * bool (* s
     | Err e => (w, render_op sc w "help" (Some (s2l "MODEL-ERR")) (Some e) None [], true)
     | Panic t => (w, render_op sc w "help" (Some (s2l "PANIC:" ++ t)) None None [], true)
     end
+  | OpComplete args =>
+    match complete_args (sc_cfg sc) (sc_orc sc) w args with
+    | Ok (w', Some items) =>
+      (w', render_op sc w' "complete" None None None
+                     (line "items" (join (map (fun it : str * str => hex_of_str (fst it) ++ [58] ++ hex_of_str (snd it)) items) [59])), false)
+    | Ok (w', None) => (w', render_op sc w' "complete" None (w_internal w) None (line "items" (s2l "none")), false)
+    | Err e => (w, render_op sc w "complete" (Some (s2l "MODEL-ERR")) (Some e) None [], true)
+    | Panic t => (w, render_op sc w "complete" (Some (s2l "PANIC:" ++ t)) None None [], true)
+    end
+  | OpInspect =>
+    (w, render_op sc w "inspect" None None None
+                  (line "model" (render_cmd (cmd_depth (w_tree w)) (pc_nsdelim (sc_cfg sc)) (pc_envdelim (sc_cfg sc)) (w_tree w))), false)
   | OpMan =>
     (w, render_op sc w "man" None None None (line "bytes" (hex_of_str (write_man (sc_cfg sc) (w_tree w) (s2l "2 January 1970")))), false)
   end.
@@ -294,7 +355,7 @@ Definition run_scenario (sc : scenario) : str :=
       | Some fs =>
         match add_group_at (s2l ".") w0 [] (s2l "Application Options") [] fs (fun gi => gi) with
         | Ok w => inl w
-        | Err e => inl {| w_tree := w_tree w0; w_rt := w_rt w0; w_internal := Some e; w_attached := [] |}
+        | Err e => inr (s2l "D:" ++ render_err (Some e))     (* internalError: the scenario ends here *)
         | Panic t => inr (s2l "PANIC:" ++ t)
         end
       end in
